@@ -24,10 +24,15 @@ structure Cfg where
   /-- `begin_session` stores the EFFECTIVE start `max(argument, scenario start)` as the origin of the grid on which
   `run_step` snaps the clock (wave 3; the defective variant stores the `starttime` argument, default 0.0). -/
   sessionOriginEffective : Bool
+  /-- the time grid of a batch run is generated from the run specs `Model.memoize` normalises with — `mod.dt` AFTER
+  `change_runspecs` applied the scenario's run specs (wave 6; the defective variant generates it with the copy of the
+  model's dt that `SdSimulation.__init__` took before). -/
+  runGridUsesModelDt : Bool
 deriving DecidableEq, Repr
 
 def Cfg.good (c : Cfg) : Bool :=
-  c.simBoundInclusive && c.plotBoundInclusive && c.stepClockNormalised && c.sessionOriginEffective
+  c.simBoundInclusive && c.plotBoundInclusive && c.stepClockNormalised && c.sessionOriginEffective &&
+    c.runGridUsesModelDt
 
 /-! ### `round` -/
 
@@ -188,6 +193,11 @@ def sessionOrigin (c : Cfg) (arg start : Rat) : Rat := if c.sessionOriginEffecti
 effective start; origin and precision of the normalisation come from the stored origin. -/
 def sessionClocksA (c : Cfg) (fl : Rat → Rat) (arg start stop dt : Rat) (calls : Nat) : List Rat :=
   sessionClocks c fl (sessionOrigin c arg start) stop dt (precOf (sessionOrigin c arg start) dt) calls (effStart arg start)
+
+/-- the row labels of the FIRST run of a scenario whose run specs carry the step `dt` on a model that was built with
+`dtOld`: `SdSimulation(model)` copies `dtOld`, `change_runspecs` sets `mod.dt := dt`, then the grid is generated. -/
+def runTimesRS (c : Cfg) (fl : Rat → Rat) (fuel : Nat) (start stop dtOld dt : Rat) : Option (List Rat) :=
+  simTimesC c fl fuel start stop (if c.runGridUsesModelDt then dt else dtOld)
 
 def memoKeyC (fl : Rat → Rat) (start dt x : Rat) : Rat := memoKey fl start dt (precOf start dt) x
 
